@@ -390,12 +390,12 @@ HARNESSES = [
                      "dns.tokenizer.Token.unescape_to_bytes", "dns.rdtypes.txtbase.TXTBase.from_text"],
             bound="names: every ASCII string of <= 2 characters and every string of <= 4 (5) characters over a . \\ 0 2 5 9 @ \" (escape machinery incl. \\DDD above 255); TTLs, token streams and TXT rdata: strings of <= 4 (3) characters over the parser's own alphabet (digits, units, escapes, quotes, parentheses, comment, whitespace)",
             stubs=["E2", "E3", "E4"], outside="longer text; non-Latin-1 (IDNA) input"),
-    Harness("H04d", h04d, h04d_pre, h04d_shards, kind="universal",
+    Harness("H04d", h04d, h04d_pre, h04d_shards, kind="universal", batch=3,
             encodes=["dns.rdata.from_text", "dns.exception.ExceptionWrapper", "dns.tokenizer.Tokenizer.get_uint8", "dns.tokenizer.Tokenizer.get_uint16",
                      "dns.tokenizer.Tokenizer.get_uint32", "dns.tokenizer.Tokenizer.get_name", "dns.tokenizer.Tokenizer.get_string"],
             bound="for every type's specimen text, each of the first 6 tokens (thorough: all) replaced by any string of <= 2 (3) characters over 0 a \\ \" . space - / = :",
             stubs=["E2", "E3", "E4"], outside="other characters; two tokens at once"),
-    Harness("H04d2", h04d2, h04d2_pre, h04d2_shards, kind="finite selection, exhaustive", batch=8,
+    Harness("H04d2", h04d2, h04d2_pre, h04d2_shards, kind="finite selection, exhaustive", batch=16,
             encodes=["dns.rdata.from_text", "dns.rdata.Rdata._as_bytes", "dns.tokenizer.Token.unescape", "dns.tokenizer.Token.unescape_to_bytes",
                      "dns.rdata.Rdata.to_wire", "dns.rdata.Rdata.to_text"],
             bound="for every type's specimen text, each of the first 6 tokens (thorough: all) replaced by each of 18 long tokens (63 / 64 / 255 / 256 characters, the same counts of \\DDD escapes and of two-octet UTF-8 characters, long digit strings, 128-label names), quoted or not",
